@@ -1,5 +1,5 @@
 """Build + evidence plumbing shared by every check (see DESIGN.md section 4.4)."""
-import os, sys, re, json, time, glob, hashlib, subprocess, shutil
+import shutil, os, sys, re, json, time, glob, hashlib, subprocess, shutil
 
 VERIF = os.path.dirname(os.path.dirname(os.path.abspath(__file__)))
 sys.path.insert(0, VERIF)
@@ -92,10 +92,48 @@ def run_translator():
     os.makedirs(os.path.join(COQ, "generated"), exist_ok=True)
     if not os.path.exists(tr):
         return {"ok": True, "fragments": {}, "log": "no translator"}
-    rc, out = sh("/venv/bin/python %s --repo %s --out %s" % (tr, common.REPO, os.path.join(COQ, "generated")), timeout=120)
+    # translate into a private directory, then install atomically and only what changed (so that a
+    # concurrent build never reads a half-written file and an unchanged source triggers no rebuild)
+    import tempfile
+    tmp = tempfile.mkdtemp(prefix="gen_", dir=common.BUILD if os.path.isdir(common.BUILD) else None)
+    try:
+        rc, out = sh("/venv/bin/python %s --repo %s --out %s" % (tr, common.REPO, tmp), timeout=120)
+        with common.Lock("coq"):
+            for f in os.listdir(tmp):
+                src, dst = os.path.join(tmp, f), os.path.join(COQ, "generated", f)
+                if not os.path.exists(dst) or open(src, "rb").read() != open(dst, "rb").read():
+                    os.replace(src, dst)
+    finally:
+        shutil.rmtree(tmp, ignore_errors=True)
     rep_path = os.path.join(COQ, "generated", "report.json")
     rep = json.load(open(rep_path)) if os.path.exists(rep_path) else {}
     return {"ok": rc == 0, "fragments": rep, "log": out[-3000:]}
+
+
+class TreeLock:
+    """Checks against the same source tree may run side by side; a check against another tree (VERIF_REPO, used
+    for seeded changes) waits until they are done and keeps the others out: the regenerated fragments and the
+    compiled development describe one tree at a time."""
+    def __enter__(self):
+        import fcntl
+        os.makedirs(common.BUILD, exist_ok=True)
+        self.f = open(os.path.join(common.BUILD, "tree.lock"), "a+")
+        idp = os.path.join(common.BUILD, "tree.id")
+        me = os.path.realpath(common.REPO)
+        while True:
+            fcntl.flock(self.f, fcntl.LOCK_SH)
+            cur = open(idp).read() if os.path.exists(idp) else ""
+            if cur == me:
+                return self
+            fcntl.flock(self.f, fcntl.LOCK_UN)
+            fcntl.flock(self.f, fcntl.LOCK_EX)          # nobody else is checking: switch trees
+            open(idp, "w").write(me)
+            fcntl.flock(self.f, fcntl.LOCK_UN)
+
+    def __exit__(self, *a):
+        import fcntl
+        fcntl.flock(self.f, fcntl.LOCK_UN)
+        self.f.close()
 
 
 def build_coq():
